@@ -1,0 +1,18 @@
+//! Verification hooks (cargo feature `verif`, off by default).
+//!
+//! Thin, add-only accessors used by the out-of-tree verification harness.
+//! Nothing in here changes the behaviour of any existing item.
+#![allow(missing_docs)]
+
+use std::sync::atomic::Ordering;
+
+/// Raises the global interrupt flag polled by the dispatch loop
+/// (what the CLI's Ctrl-C handler does).
+pub fn raise_interrupt() {
+    crate::machine::INTERRUPT.store(true, Ordering::Relaxed);
+}
+
+/// Clears the global interrupt flag.
+pub fn clear_interrupt() {
+    crate::machine::INTERRUPT.store(false, Ordering::Relaxed);
+}
